@@ -411,3 +411,12 @@ RULE_ADDENDA = {
 }
 for _k, _v in RULE_ADDENDA.items():
     PROPS[_k]["rule"] = PROPS[_k]["rule"].rstrip() + " " + _v
+
+# Quick-tier deadlines are upper bounds that cost nothing on a quiet machine (a quick check takes 10-110 s there); on a machine that runs many
+# checks at once a test can take several times longer - a floor of 10 minutes keeps such a run from ending as INCONCLUSIVE.
+for _p in PROPS.values():
+    for _t in _p["tests"]:
+        if _t["quick"] is not _t["thorough"]:
+            _t["quick"]["timeout"] = max(_t["quick"]["timeout"], 600)
+        else:
+            _t["quick"] = dict(_t["quick"], timeout=max(_t["quick"]["timeout"], 600))
